@@ -236,6 +236,11 @@ RECIPES = {
         'syndef_a1': dict(kind='audio', timescale=48000, track_id=2, durations=(96000, 96000, 96000, 96000), file_id=16,
                           samples_per_seg=4, dur_from='trex', trex_duration=24000),
     },
+    # track ids that are not 1 (video) and 2 (audio)
+    'syntrk': {
+        'syntrk_v1': dict(kind='video', timescale=1000, track_id=3, durations=(2000, 3000, 2000, 3000), file_id=17),
+        'syntrk_a1': dict(kind='audio', timescale=48000, track_id=5, durations=(96000, 144000, 96000, 144000), file_id=18),
+    },
     # a track with two key ids: the tenc default and a second one named by a pssh box in the first fragment
     'synmk': {
         'synmk_v1': dict(kind='video', timescale=1000, durations=(2000, 2000, 2000), file_id=13),
